@@ -111,6 +111,7 @@ func runOne(slot int, data []byte, ei int, network bool, v verdict, origin strin
 	})
 	wd.End(slot)
 	if panicked {
+		kind = stableKind(kind)
 		rep.FailLazy(where+"/panic/"+frame+"/"+kind, len(data), func() engine.Failure {
 			return engine.Failure{Detail: fmt.Sprintf("panic %s in %s decoding %x (network=%v)", kind, frame, clip(data), network), Case: mk()}
 		})
@@ -121,6 +122,15 @@ func runOne(slot int, data []byte, ei int, network bool, v verdict, origin strin
 			return engine.Failure{Detail: fmt.Sprintf("nil error for input %x (network=%v) which the reference reader classifies as %s", clip(data), network, v.reason), Case: mk()}
 		})
 	}
+}
+
+// stableKind drops the Go type names from reflect's assignability panics, so that one defect is one class
+// whatever value the input carried.
+func stableKind(kind string) string {
+	if strings.HasPrefix(kind, "reflect.Set:_value_of_type_") && strings.Contains(kind, "_is_not_assignable_to_type_") {
+		return "reflect.Set:_value_is_not_assignable_to_destination_type"
+	}
+	return kind
 }
 
 func clip(b []byte) []byte {
